@@ -336,6 +336,36 @@ class Py(object):
 NOATTR = object()
 
 
+def _memoising_decorator(fn):
+    for d in getattr(fn, 'decorator_list', ()):
+        t = d.func if isinstance(d, ast.Call) else d
+        name = t.id if isinstance(t, ast.Name) else (t.attr if isinstance(t, ast.Attribute) else '')
+        if name in ('lru_cache', 'cache'):
+            return True
+    return False
+
+
+def _memo_call(sk, memo, who, compute, args, kw, node):
+    try:
+        key = (who, tuple(args), tuple(sorted(kw.items())))
+        hash(key)
+    except TypeError:
+        raise Raised('TypeError', 'unhashable argument of a memoised function', node)
+    if key not in memo:
+        memo[key] = compute()
+    return memo[key]
+
+
+def _lru_cache(sk, node, *a, **k):
+    """functools.lru_cache / cache (and the package's backport of it): lru_cache(f), lru_cache(maxsize=...)(f)"""
+    def wrap(f):
+        memo = {}
+        return Py(lambda sk2, n2, *a2, **k2: _memo_call(sk2, memo, id(f), lambda: sk2.apply(f, list(a2), dict(k2), n2), a2, k2, n2), 'memoised')
+    if len(a) == 1 and not k and (isinstance(a[0], (Py, FnRef)) or (isinstance(a[0], tuple) and a[0] and a[0][0] == 'class')):
+        return wrap(a[0])
+    return Py(lambda sk2, n2, f: wrap(f), 'lru_cache(...)')
+
+
 class ModRef(object):
     def __init__(self, name):
         self.name = name
@@ -546,6 +576,8 @@ class SK(object):
         if (mod, name) in self.abstracted:
             return self.abstracted[(mod, name)]
         fi = self.m.lookup_modfunc(mod, name)
+        if fi is not None and fi.key == 'functools_lru_cache.lru_cache':
+            return BUILTINS['lru_cache']            # the backport stands for the library function
         if fi is not None:
             k = (fi.mod, fi.name)
             if k in self.abstracted:
@@ -567,6 +599,8 @@ class SK(object):
                 return itertools_func(imp[1].split('.', 1)[1])
             if imp[1] == 'functools.partial':
                 return BUILTINS['partial']
+            if imp[1] in ('functools.lru_cache', 'functools.cache'):
+                return BUILTINS['lru_cache']
             if imp[1] in ('bisect.bisect_left', 'bisect.bisect_right', 'bisect.bisect'):
                 return BUILTINS[imp[1].split('.')[1]]
             return ModRef('ext:' + imp[1])
@@ -639,6 +673,8 @@ class SK(object):
                 return BUILTINS['reduce']
             if b.name == 'ext:functools' and e.attr == 'partial':
                 return BUILTINS['partial']
+            if b.name == 'ext:functools' and e.attr in ('lru_cache', 'cache'):
+                return BUILTINS['lru_cache']
             if b.name == 'ext:sys' and e.attr == 'float_info':
                 import sys as _sys
                 return _sys.float_info          # constants of the float format
@@ -1106,6 +1142,10 @@ class SK(object):
         if isinstance(f, FnRef):
             if f.bound is not None:
                 return self.call(f.fi, [f.bound] + args, kw)
+            if _memoising_decorator(f.fi.node):
+                # @lru_cache: the very object computed by the first call is what every later call with equal arguments returns
+                memo = self.__dict__.setdefault('_memo', {})
+                return _memo_call(self, memo, f.fi.key, lambda: self.call(f.fi, args, kw), args, kw, node)
             return self.call(f.fi, args, kw)
         if isinstance(f, tuple) and f and f[0] == 'class':
             hook = self.abstracted.get(('class', f[1]))
@@ -1503,6 +1543,7 @@ BUILTINS = {
     'dict': Py(lambda sk, n, *a, **k: dict(*a, **k), 'dict'), 'deepcopy': Py(_deepcopy_tracked, 'deepcopy'),
     'divmod': Py(lambda sk, n, a, b: divmod(a, b) if all(isinstance(x, (int, float)) and not isinstance(x, bool) for x in (a, b)) else DEF(), 'divmod'),
     'sum': Py(_sum, 'sum'), 'reversed': Py(lambda sk, n, x: list(reversed(x)), 'reversed'), 'sorted': Py(lambda sk, n, x, **k: _sorted(sk, n, x, **k), 'sorted'),
+    'lru_cache': Py(lambda sk, n, *a, **k: _lru_cache(sk, n, *a, **k), 'lru_cache'),
     'reduce': Py(lambda sk, n, f, seq, *init: _reduce(sk, n, f, seq, *init), 'reduce'),
     'partial': Py(lambda sk, n, f, *a, **k: Py(lambda sk2, n2, *a2, _f=f, _a=a, _k=k, **k2: sk2.apply(_f, list(_a) + list(a2), dict(_k, **k2), n2), 'partial'), 'partial'),
     'set': Py(lambda sk, n, *a: set(*a), 'set'), 'str': Py(lambda sk, n, *a: _str(sk, n, *a), 'str'), 'print': Py(lambda sk, n, *a, **k: None, 'print'),
